@@ -387,6 +387,20 @@ Instantiate(M, store, binds) ==
                ELSE [st4 EXCEPT !.tables[taddr] = ApplyElems(M, st4, gs.g, st4.tables[taddr], inst, 1)]
     IN  [st5 EXCEPT !.insts = @ \o <<[mem |-> maddr, table |-> taddr, globals |-> gs.g]>>]
 
+\* Segments must lie inside their memory / table, otherwise instantiation fails in the
+\* specification (and is outside what the properties quantify over).
+SegmentsInBounds(M, store, inst) ==
+    LET I == store.insts[inst]
+    IN  /\ \A k \in 1..Len(M.data) :
+              M.data[k].mode = "active" =>
+                  /\ I.mem # 0
+                  /\ LET o == AddrOf(ConstExpr(store, I.globals, M.data[k].offset).b)
+                     IN  o >= 0 /\ o + Len(M.data[k].bytes) <= store.mems[I.mem].pages * PageSize
+        /\ \A k \in 1..Len(M.elems) :
+              /\ I.table # 0
+              /\ LET o == AddrOf(ConstExpr(store, I.globals, M.elems[k].offset).b)
+                 IN  o >= 0 /\ o + Len(M.elems[k].funcs) <= store.tables[I.table].size
+
 IdleCfg(store) ==
     [store |-> store, frames |-> <<>>, status |-> "idle", res |-> <<>>, trap |-> "", host |-> <<>>,
      fuel |-> 0, maxdepth |-> 0]
